@@ -251,7 +251,13 @@ func (sp *spec) build() error {
 	case "fmt(http)":
 		e = fmt.Errorf("ctx: %w", ociregistry.NewHTTPError(e, sp.HTTPStatus, nil, nil))
 	case "http+resp", "fmt(http+resp)":
-		resp := &http.Response{StatusCode: sp.HTTPStatus, Status: fmt.Sprintf("%d %s", sp.HTTPStatus, http.StatusText(sp.HTTPStatus)), Proto: "HTTP/1.1", ProtoMajor: 1, ProtoMinor: 1,
+		// the response kept for diagnosis need not have the status the error is given: a gateway relabels an
+		// upstream answer (404 from upstream, 502 to its own caller) and keeps the original at hand
+		rs := sp.HTTPStatus
+		if len(sp.Msg)%2 == 1 {
+			rs = []int{404, 502, 416, 200, 503, 401}[(len(sp.Msg)/2+sp.HTTPStatus)%6]
+		}
+		resp := &http.Response{StatusCode: rs, Status: fmt.Sprintf("%d %s", rs, http.StatusText(rs)), Proto: "HTTP/1.1", ProtoMajor: 1, ProtoMinor: 1,
 			Header: http.Header{"Content-Type": {"application/json"}}}
 		e = ociregistry.NewHTTPError(e, sp.HTTPStatus, resp, []byte(`{"errors":[]}`))
 		if sp.Wrap == "fmt(http+resp)" {
